@@ -75,7 +75,7 @@ func Cosqi(n int, work []float64, ifac []int) {
 //	Output parameters:
 //
 //	x       for i=0, ..., n-1
-//	          x[i] = x[i] + the sum from k=0 to k=n-2 of
+//	          x[i] = x[0] + the sum from k=1 to k=n-1 of
 //	              2*x[k]*cos((2*i+1)*k*pi/(2*n))
 //
 //	        A call of Cosqf followed by a call of
